@@ -601,9 +601,13 @@ func RandomOp(r *hx.Rng, d Desc, kinds []string) OpDesc {
 			o.Data[i] = randVec(r, o.Arity, -6, 6)
 		}
 	case "set_materials":
-		n := r.Range(0, 3)
-		for i := 0; i < n; i++ {
-			o.Mats = append(o.Mats, Mat{Count: r.Range(0, 3), ID: r.Intn(3)})
+		if r.Chance(1, 3) {
+			n := r.Range(0, 3)
+			for i := 0; i < n; i++ {
+				o.Mats = append(o.Mats, Mat{Count: r.Range(0, 3), ID: r.Intn(3)})
+			}
+		} else {
+			o.Mats = randMats(r, len(d.Idx)/indexSize(topo)) // ranges that fit the mesh, recurring materials included
 		}
 	case "repeat":
 		n := r.Range(0, 3)
